@@ -1,5 +1,532 @@
-//! C03 runner (stub while the hook is compiled for the first time).
+//! C03 runner: generates hashing / partition-key cases from the seed, runs the REAL partitioner
+//! hashers, PREPARED-response deserializer, PartitionKey extraction / encoding and token
+//! calculation, and writes "<case> | <observed>" lines for the extracted Murmur/PartKey model.
+//!
+//! Case kinds (see ocaml/c03/driver.ml):
+//!   H <m|c> <bytes>                          Partitioner::hash_one
+//!   W <m|c> <chunk,chunk,..>                 PartitionerName::build_hasher, write per chunk, finish
+//!   K <m|c> <ncols> <pk indexes> <values>    PREPARED response bytes -> deserialize_with_features
+//!                                            -> PreparedStatement (hook) -> slots / chunks / token
+//!                                            (hooks) and the public typed calculate_token /
+//!                                            compute_partition_key
+//!   T <m|c> <values>                         calculate_token_for_partition_key (hook)
+use bytes::Bytes;
+use scylla::routing::partitioner::{
+    CDCPartitioner, Murmur3Partitioner, Partitioner, PartitionerHasher, PartitionerName,
+};
+use scylla_cql::serialize::row::SerializedValues;
+use scylla::statement::prepared::{
+    PartitionKeyError, PartitionKeyExtractionError, PreparedStatement, TokenCalculationError,
+};
 use scylla::statement::verif_prepared as hooks;
+use scylla::value::MaybeUnset;
+use scylla_cql::frame::protocol_features::ProtocolFeatures;
+use scylla_cql::frame::response::result as cqlres;
+use std::panic::AssertUnwindSafe;
+use vh::*;
+
+#[derive(Clone, Debug)]
+enum Val {
+    Null,
+    Unset,
+    Value(Vec<u8>),
+}
+
+fn partitioner_name(p: &str) -> PartitionerName {
+    if p == "c" { PartitionerName::CDC } else { PartitionerName::Murmur3 }
+}
+
+// ------------------------------------------------------------------ text encodings
+
+fn unhex(s: &str) -> Vec<u8> {
+    if s == "-" || s.is_empty() {
+        return vec![];
+    }
+    (0..s.len() / 2).map(|i| u8::from_str_radix(&s[2 * i..2 * i + 2], 16).unwrap()).collect()
+}
+fn chunks_to_string(cs: &[Vec<u8>]) -> String {
+    if cs.is_empty() {
+        return "-".into();
+    }
+    cs.iter().map(|c| if c.is_empty() { ".".to_string() } else { hex_bytes(c) }).collect::<Vec<_>>().join(",")
+}
+fn chunks_from_string(s: &str) -> Vec<Vec<u8>> {
+    if s == "-" {
+        return vec![];
+    }
+    s.split(',').map(|c| if c == "." { vec![] } else { unhex(c) }).collect()
+}
+fn values_to_string(vs: &[Val]) -> String {
+    if vs.is_empty() {
+        return "-".into();
+    }
+    vs.iter()
+        .map(|v| match v {
+            Val::Null => "N".to_string(),
+            Val::Unset => "U".to_string(),
+            Val::Value(b) => format!("V{}", if b.is_empty() { String::new() } else { hex_bytes(b) }),
+        })
+        .collect::<Vec<_>>()
+        .join(",")
+}
+fn values_from_string(s: &str) -> Vec<Val> {
+    if s == "-" {
+        return vec![];
+    }
+    s.split(',')
+        .map(|v| match v {
+            "N" => Val::Null,
+            "U" => Val::Unset,
+            _ => Val::Value(unhex(&v[1..])),
+        })
+        .collect()
+}
+fn wire_from_string(s: &str) -> Vec<u16> {
+    if s == "-" {
+        return vec![];
+    }
+    s.split(',').map(|x| u16::from_str_radix(x, 16).unwrap()).collect()
+}
+
+// ------------------------------------------------------------------ building the real objects
+
+/// `[short n][value]*` as in a frame, then the crate's own parser
+fn serialized_values(vs: &[Val]) -> SerializedValues {
+    let mut b = Vec::new();
+    b.extend_from_slice(&(vs.len() as u16).to_be_bytes());
+    for v in vs {
+        match v {
+            Val::Null => b.extend_from_slice(&(-1i32).to_be_bytes()),
+            Val::Unset => b.extend_from_slice(&(-2i32).to_be_bytes()),
+            Val::Value(x) => {
+                b.extend_from_slice(&(x.len() as i32).to_be_bytes());
+                b.extend_from_slice(x);
+            }
+        }
+    }
+    SerializedValues::new_from_frame(&mut &b[..]).expect("serialized values")
+}
+
+fn put_string(b: &mut Vec<u8>, s: &str) {
+    b.extend_from_slice(&(s.len() as u16).to_be_bytes());
+    b.extend_from_slice(s.as_bytes());
+}
+
+/// body of a RESULT/Prepared response (CQL v4): ncols blob bind markers, the given pk indexes
+fn prepared_response_body(ncols: usize, wire: &[u16]) -> Vec<u8> {
+    let mut b = Vec::new();
+    b.extend_from_slice(&4i32.to_be_bytes()); // kind = Prepared
+    b.extend_from_slice(&2u16.to_be_bytes()); // id
+    b.extend_from_slice(b"id");
+    // prepared metadata
+    b.extend_from_slice(&1i32.to_be_bytes()); // flags: global tables spec
+    b.extend_from_slice(&(ncols as i32).to_be_bytes());
+    b.extend_from_slice(&(wire.len() as i32).to_be_bytes());
+    for i in wire {
+        b.extend_from_slice(&i.to_be_bytes());
+    }
+    put_string(&mut b, "ks");
+    put_string(&mut b, "t");
+    for c in 0..ncols {
+        put_string(&mut b, &format!("c{}", c));
+        b.extend_from_slice(&0x0003u16.to_be_bytes()); // blob
+    }
+    // result metadata: no metadata, 0 columns
+    b.extend_from_slice(&4i32.to_be_bytes());
+    b.extend_from_slice(&0i32.to_be_bytes());
+    b
+}
+
+fn prepared_statement(ncols: usize, wire: &[u16], p: &str) -> Result<PreparedStatement, String> {
+    let body = Bytes::from(prepared_response_body(ncols, wire));
+    match cqlres::deserialize_with_features(body, None, &ProtocolFeatures::default()) {
+        Ok(cqlres::Result::Prepared(resp)) => Ok(hooks::prepared_statement_from_response(resp, partitioner_name(p))),
+        Ok(_) => Err("error not-prepared".into()),
+        Err(e) => Err(format!("error deser {}", e).replace(' ', "_")),
+    }
+}
+
+// ------------------------------------------------------------------ output encodings
+
+fn extraction_err(e: &PartitionKeyExtractionError) -> String {
+    match e {
+        PartitionKeyExtractionError::NoPkIndexValue(i, c) => format!("err:nopk:{:x}:{:x}", i, c),
+        _ => "err:other".into(),
+    }
+}
+fn token_err(e: &TokenCalculationError) -> String {
+    match e {
+        TokenCalculationError::ValueTooLong(n) => format!("err:toolong:{:x}", n),
+        _ => "err:other".into(),
+    }
+}
+fn pk_err(e: &PartitionKeyError) -> String {
+    match e {
+        PartitionKeyError::PartitionKeyExtraction(e) => extraction_err(e),
+        PartitionKeyError::TokenCalculation(e) => token_err(e),
+        PartitionKeyError::Serialization(_) => "err:ser".into(),
+        _ => "err:other".into(),
+    }
+}
+
+// ------------------------------------------------------------------ running one case
+
+fn run_case(case: &str) -> String {
+    let f: Vec<&str> = case.split_whitespace().collect();
+    match f[0] {
+        "H" => {
+            let data = unhex(f[2]);
+            let r = if f[1] == "c" {
+                catch(move || CDCPartitioner.hash_one(&data).value())
+            } else {
+                catch(move || Murmur3Partitioner.hash_one(&data).value())
+            };
+            match r {
+                Ok(t) => hex_i(t as i128),
+                Err(_) => "panic".into(),
+            }
+        }
+        "W" => {
+            let chunks = chunks_from_string(f[2]);
+            let name = partitioner_name(f[1]);
+            match catch(move || {
+                let mut h = name.build_hasher();
+                for c in &chunks {
+                    h.write(c);
+                }
+                h.finish().value()
+            }) {
+                Ok(t) => hex_i(t as i128),
+                Err(_) => "panic".into(),
+            }
+        }
+        "T" => {
+            let vals = values_from_string(f[2]);
+            let name = partitioner_name(f[1]);
+            let sv = serialized_values(&vals);
+            match catch(AssertUnwindSafe(|| hooks::calculate_token_for_partition_key(&sv, &name))) {
+                Ok(Ok(t)) => format!("ok:{}", hex_i(t.value() as i128)),
+                Ok(Err(e)) => token_err(&e),
+                Err(_) => "panic".into(),
+            }
+        }
+        "K" => {
+            let ncols = usize::from_str_radix(f[2], 16).unwrap();
+            let wire = wire_from_string(f[3]);
+            let vals = values_from_string(f[4]);
+            let ps = match prepared_statement(ncols, &wire, f[1]) {
+                Ok(ps) => ps,
+                Err(e) => return e,
+            };
+            let sv = serialized_values(&vals);
+            let slots = match catch(AssertUnwindSafe(|| hooks::extract_partition_key_slots(&ps, &sv))) {
+                Ok(Ok(s)) => {
+                    let items: Vec<String> = s
+                        .iter()
+                        .map(|x| match x {
+                            None => "N".to_string(),
+                            Some(b) => format!("S{}", if b.is_empty() { String::new() } else { hex_bytes(b) }),
+                        })
+                        .collect();
+                    format!("ok:{}", if items.is_empty() { "-".to_string() } else { items.join(",") })
+                }
+                Ok(Err(e)) => extraction_err(&e),
+                Err(_) => "panic".into(),
+            };
+            let chunks = match catch(AssertUnwindSafe(|| hooks::encoded_partition_key_chunks(&ps, &sv))) {
+                Ok(Ok(cs)) => format!("ok:{}", chunks_to_string(&cs)),
+                Ok(Err(e)) => pk_err(&e),
+                Err(_) => "panic".into(),
+            };
+            let tok = |r: Result<Result<Option<scylla::routing::Token>, PartitionKeyError>, String>| match r {
+                Ok(Ok(None)) => "none".to_string(),
+                Ok(Ok(Some(t))) => format!("some:{}", hex_i(t.value() as i128)),
+                Ok(Err(e)) => pk_err(&e),
+                Err(_) => "panic".into(),
+            };
+            let token = tok(catch(AssertUnwindSafe(|| hooks::calculate_token_untyped(&ps, &sv))));
+            // the public, typed entry points (values serialized by the statement itself)
+            let (typed, pk) = if vals.len() == ncols {
+                let row: Vec<MaybeUnset<Option<Vec<u8>>>> = vals
+                    .iter()
+                    .map(|v| match v {
+                        Val::Unset => MaybeUnset::Unset,
+                        Val::Null => MaybeUnset::Set(None),
+                        Val::Value(b) => MaybeUnset::Set(Some(b.clone())),
+                    })
+                    .collect();
+                let typed = tok(catch(AssertUnwindSafe(|| ps.calculate_token(&row))));
+                let pk = match catch(AssertUnwindSafe(|| ps.compute_partition_key(&row))) {
+                    Ok(Ok(b)) => format!("ok:{}", hex_bytes(&b)),
+                    Ok(Err(e)) => pk_err(&e),
+                    Err(_) => "panic".into(),
+                };
+                (typed, pk)
+            } else {
+                ("na".to_string(), "na".to_string())
+            };
+            format!("{} {} {} {} {}", slots, chunks, token, typed, pk)
+        }
+        _ => "error unknown-case".into(),
+    }
+}
+
+// ------------------------------------------------------------------ generators
+
+/// byte strings: uniform, all >= 0x80, all 0xff, sign-boundary values, ASCII
+fn gen_bytes(r: &mut Rng, len: usize) -> Vec<u8> {
+    match r.below(8) {
+        0 | 1 => r.bytes(len),
+        2 | 3 | 4 => (0..len).map(|_| 0x80 | (r.u64() as u8)).collect(),
+        5 => vec![0xff; len],
+        6 => (0..len).map(|_| *r.pick(&[0x00u8, 0x7f, 0x80, 0xff, 0x81, 0xfe])).collect(),
+        _ => (0..len).map(|_| 0x20 + (r.below(95) as u8)).collect(),
+    }
+}
+/// lengths: 0..=70 mostly, multiples / near-multiples of 16, occasionally long
+fn gen_len(r: &mut Rng, max_long: usize) -> usize {
+    match r.below(100) {
+        0..=44 => r.range(0, 70) as usize,
+        45..=64 => {
+            let k = r.range(1, 24) as usize;
+            16 * k + r.range(0, 2) as usize - 1
+        }
+        65..=79 => r.range(0, 20) as usize,
+        80..=93 => r.range(71, 300) as usize,
+        94..=97 => {
+            let k = r.range(1, (max_long / 16) as u64) as usize;
+            16 * k + r.range(0, 2) as usize - 1
+        }
+        _ => r.range(300, max_long as u64) as usize,
+    }
+}
+/// split `data` into chunks whose sizes stress the 16-byte (8-byte for CDC) buffer
+fn gen_chunking(r: &mut Rng, data: &[u8]) -> Vec<Vec<u8>> {
+    let mut out = Vec::new();
+    let mut rest = data;
+    let style = r.below(4);
+    while !rest.is_empty() {
+        let want = match style {
+            0 => *r.pick(&[0usize, 1, 15, 16, 17, 7, 8, 9, 31, 32, 33]),
+            1 => r.range(0, 5) as usize,
+            2 => r.range(0, 40) as usize,
+            _ => r.range(0, rest.len() as u64) as usize,
+        };
+        let n = want.min(rest.len());
+        out.push(rest[..n].to_vec());
+        rest = &rest[n..];
+        if out.len() > 40 {
+            out.push(rest.to_vec());
+            break;
+        }
+    }
+    if r.chance(1, 4) {
+        out.push(vec![]);
+    }
+    out
+}
+
+fn gen_partitioner(r: &mut Rng) -> &'static str {
+    if r.chance(1, 6) { "c" } else { "m" }
+}
+
+fn gen_key_component(r: &mut Rng, p: &str, boundary_ok: bool) -> Vec<u8> {
+    if boundary_ok && r.chance(1, 4000) {
+        let len = *r.pick(&[65535usize, 65536, 65537, 65534]);
+        return gen_bytes(r, len);
+    }
+    let len = if p == "c" && r.chance(1, 2) { r.range(0, 18) as usize } else { gen_len(r, 1024) };
+    gen_bytes(r, len)
+}
+
+fn gen_nonkey(r: &mut Rng) -> Val {
+    match r.below(5) {
+        0 => Val::Null,
+        1 => Val::Unset,
+        _ => {
+            let len = r.range(0, 12) as usize;
+            Val::Value(gen_bytes(r, len))
+        }
+    }
+}
+
+/// K case: k key components among m markers, pk indexes in partition-key order
+fn gen_k_case(r: &mut Rng) -> String {
+    let p = gen_partitioner(r);
+    let k = match r.below(10) {
+        0..=2 => 1,
+        3..=5 => r.range(2, 3) as usize,
+        _ => r.range(1, 8) as usize,
+    };
+    let m = r.range(k as u64, 16) as usize;
+    let mut positions: Vec<u16> = (0..m as u16).collect();
+    r.shuffle(&mut positions);
+    let mut wire: Vec<u16> = positions[..k].to_vec();
+    let mut vals: Vec<Val> = (0..m).map(|_| gen_nonkey(r)).collect();
+    for &i in &wire {
+        vals[i as usize] = Val::Value(gen_key_component(r, p, true));
+    }
+    let mut ncols = m;
+    // malformed / boundary stream (outside the property's quantifier: model = code exactly)
+    if r.chance(3, 20) {
+        match r.below(7) {
+            0 => {
+                let i = *r.pick(&wire);
+                vals[i as usize] = if r.bool() { Val::Null } else { Val::Unset };
+            }
+            1 => {
+                let d = *r.pick(&wire);
+                let at = r.below(wire.len() as u64 + 1) as usize;
+                wire.insert(at, d); // duplicate pk index
+            }
+            2 => {
+                let cut = r.below(m as u64 + 1) as usize;
+                vals.truncate(cut); // fewer values than markers
+            }
+            3 => {
+                ncols = r.below(m as u64 + 1) as usize; // fewer column specs than markers
+            }
+            4 => wire.clear(), // not token aware
+            5 => {
+                vals.push(gen_nonkey(r)); // more values than markers
+            }
+            _ => {
+                let at = r.below(wire.len() as u64) as usize;
+                wire[at] = *r.pick(&[m as u16, m as u16 + 1, 0xffff, 0xfffe, 0x8000]); // index out of range
+            }
+        }
+    }
+    format!("K {} {:x} {} {}", p, ncols, hex_list(&wire), values_to_string(&vals))
+}
+
+fn gen_t_case(r: &mut Rng) -> String {
+    let p = gen_partitioner(r);
+    let k = r.range(0, 8) as usize;
+    let vals: Vec<Val> = (0..k)
+        .map(|_| {
+            if r.chance(1, 12) {
+                if r.bool() { Val::Null } else { Val::Unset }
+            } else {
+                Val::Value(gen_key_component(r, p, true))
+            }
+        })
+        .collect();
+    format!("T {} {}", p, values_to_string(&vals))
+}
+
+/// all injective maps from k sequence positions into m marker positions
+fn injections(k: usize, m: usize, cur: &mut Vec<u16>, out: &mut Vec<Vec<u16>>) {
+    if cur.len() == k {
+        out.push(cur.clone());
+        return;
+    }
+    for i in 0..m as u16 {
+        if !cur.contains(&i) {
+            cur.push(i);
+            injections(k, m, cur, out);
+            cur.pop();
+        }
+    }
+}
+
 fn main() {
-    let _ = hooks::calculate_token_for_partition_key;
+    let a = parse_args();
+    quiet_panics();
+    let mut out = Out::create(&a.out);
+    if let Some(p) = &a.replay {
+        for c in read_cases(p) {
+            let o = run_case(&c);
+            out.case(&c, &o);
+        }
+        out.finish();
+        return;
+    }
+    let thorough = a.tier == "thorough";
+    let mut r = Rng::new(a.seed);
+    let emit = |c: String, out: &mut Out| {
+        let o = run_case(&c);
+        out.case(&c, &o);
+    };
+
+    // (i) hash_one vs the model on every length 0..=70, several byte classes
+    for len in 0..=70usize {
+        for class in 0..4 {
+            let data: Vec<u8> = match class {
+                0 => (0..len).map(|_| 0x80 | (r.u64() as u8)).collect(),
+                1 => vec![0xff; len],
+                2 => r.bytes(len),
+                _ => (0..len).map(|i| if i % 2 == 0 { 0x80 } else { 0x7f }).collect(),
+            };
+            emit(format!("H m {}", hex_bytes(&data)), &mut out);
+        }
+        if len <= 24 {
+            let data = gen_bytes(&mut r, len);
+            emit(format!("H c {}", hex_bytes(&data)), &mut out);
+        }
+    }
+    // every multiple / near-multiple of 16 up to 4 KiB, bytes >= 0x80 dense
+    for k in 1..=256usize {
+        for d in [-1i64, 0, 1] {
+            let len = (16 * k as i64 + d) as usize;
+            let data: Vec<u8> = (0..len).map(|_| if r.chance(7, 8) { 0x80 | (r.u64() as u8) } else { r.u64() as u8 }).collect();
+            emit(format!("H m {}", hex_bytes(&data)), &mut out);
+        }
+    }
+    // (ii) every 2-split and 3-split of a 48-byte string, both partitioners' boundaries
+    let base: Vec<u8> = (0..48).map(|_| 0x80 | (r.u64() as u8)).collect();
+    for i in 0..=48usize {
+        for j in i..=48usize {
+            let cs = vec![base[..i].to_vec(), base[i..j].to_vec(), base[j..].to_vec()];
+            emit(format!("W m {}", chunks_to_string(&cs)), &mut out);
+            if j <= 20 {
+                emit(format!("W c {}", chunks_to_string(&cs)), &mut out);
+            }
+        }
+    }
+    // (iii) all placements of k <= 4 (thorough: 5) key markers among k..k+2 markers
+    let kmax = if thorough { 5 } else { 4 };
+    for k in 1..=kmax {
+        for m in k..=k + 2 {
+            let mut all = Vec::new();
+            injections(k, m, &mut Vec::new(), &mut all);
+            for wire in all {
+                let mut vals: Vec<Val> = (0..m).map(|_| gen_nonkey(&mut r)).collect();
+                for &i in &wire {
+                    let len = r.range(0, 20) as usize;
+                    vals[i as usize] = Val::Value(gen_bytes(&mut r, len));
+                }
+                emit(format!("K m {:x} {} {}", m, hex_list(&wire), values_to_string(&vals)), &mut out);
+            }
+        }
+    }
+    // the 2-byte length boundary of composite components, and a long single component
+    for len in [65534usize, 65535, 65536, 65537] {
+        let big = gen_bytes(&mut r, len);
+        emit(format!("K m 2 1,0 V{},V0102", hex_bytes(&big)), &mut out);
+        emit(format!("T m V0102,V{}", hex_bytes(&big)), &mut out);
+    }
+    let big = gen_bytes(&mut r, 65537);
+    emit(format!("K m 1 0 V{}", hex_bytes(&big)), &mut out);
+
+    // seeded random part
+    for _ in 0..a.n {
+        let c = match r.below(20) {
+            0..=4 => {
+                let p = gen_partitioner(&mut r);
+                let len = if p == "c" { r.range(0, 24) as usize } else { gen_len(&mut r, 4096) };
+                format!("H {} {}", p, hex_bytes(&gen_bytes(&mut r, len)))
+            }
+            5..=10 => {
+                let p = gen_partitioner(&mut r);
+                let len = if p == "c" { r.range(0, 24) as usize } else { gen_len(&mut r, 1024) };
+                let data = gen_bytes(&mut r, len);
+                let cs = gen_chunking(&mut r, &data);
+                format!("W {} {}", p, chunks_to_string(&cs))
+            }
+            11..=17 => gen_k_case(&mut r),
+            _ => gen_t_case(&mut r),
+        };
+        emit(c, &mut out);
+    }
+    out.finish();
 }
